@@ -1,6 +1,6 @@
 CONSTANTS
-  Stmts <- Stmts7
-  StmtParams <- Params7
+  Stmts <- Stmts9
+  StmtParams <- Params9
   ManyPairs <- Pairs1
   Data <- DataA
   NumberMode = "conforming"
